@@ -60,7 +60,25 @@ def rule_error_isolation(ctx, p, cfg, rid="F3"):
 
 
 
+def rule_log_adapter(ctx, p, cfg, rid="F7"):
+    """`impl<T: Log> Append for T`: a logger used as an appender gets every record its filter chain let through - the adapter
+    adds no test of its own"""
+    with ctx.rule(rid, "a Log used as an appender gets every admitted record", cfg) as r:
+        fs = [f for path, f in p.fns.items() if path.startswith("<T as append::Append>::append")]
+        if len(fs) != 1:
+            raise AnchorMissing("blanket impl<T: Log> Append for T not found")
+        f = fs[0]
+        lc = f.calls("log::Log::log")
+        r.require(len(lc) == 1 and deep_strip(lc[0].arg(0)) == ("param", 1) and deep_strip(lc[0].arg(1)) == ("param", 2), "forwards-the-record", fn=f, detail="self.log(record)")
+        if lc:
+            r.require(all(f.dominates(lc[0].block, rb) for rb in f.return_blocks()), "on-every-path", fn=f, site=lc[0].at, detail="Log::log is called on every path through append",
+                      fail_detail="append can return without calling Log::log: the adapter drops records the filter chain admitted (delivery is no longer decided by the chain alone)")
+        rets = q.ret_assignments(f)
+        r.require(bool(rets) and all(q.classify_ret(e) == "ok" for b, e in rets), "reports-ok", fn=f, detail="returns Ok(())")
+
+
 def run_cfg(ctx, p, cfg):
+    rule_log_adapter(ctx, p, cfg, "F7")
     if "config_parsing" in p.meta.get("features", []):
         from rules import c14
         c14.rule_filters_per_appender(ctx, p, cfg, "F6")   # one appender's (failed) declaration cannot put filters in front of another
